@@ -208,6 +208,9 @@ def run(tier, seed, replay=None):
         "array33": {"type": "array", "items": {"type": "integer"}, "minItems": 33, "maxItems": 33},
         "array40_bool": {"type": "array", "items": {"type": "boolean"}, "minItems": 40, "maxItems": 40},
         "tuple13": {"type": "array", "items": [{"type": "integer"}] * 13, "minItems": 13, "maxItems": 13},
+        "tuple13_padded": {"type": "array", "items": [{"type": "string"}, {"type": "boolean"}], "additionalItems": {"type": "integer"},
+                           "minItems": 13, "maxItems": 13},
+        "tuple12_padded": {"type": "array", "items": [{"type": "string"}], "minItems": 12, "maxItems": 12},
         "date": {"type": "string", "format": "date"}, "date_time": {"type": "string", "format": "date-time"},
         "uuid": {"type": "string", "format": "uuid"},
         "pattern": {"type": "string", "pattern": "^[a-z]+$"},
